@@ -269,4 +269,17 @@ def run(ctx):
             for x in fam:
                 for ln, what in raw_float_ops(x):
                     ctx.violation("R14.1", x.loc(ln), f"{path}|{m}|{what}", f"{path}: generated {m} uses a raw float comparison: {what}")
+        # PartialOrd must agree with Ord: it is Some(cmp) (educe forwards it when it derives both), never the std derive, which
+        # compares the doubles with f64::partial_cmp (NaN: None, although cmp says Equal / Greater)
+        pimp = [i for i in ct.impls if i.get("trait") == "core::cmp::PartialOrd" and ty_adt(i["self_ty"]) == path]
+        for i in pimp:
+            pb = ct.methods_of_impl(i).get("partial_cmp")
+            if pb is None:
+                continue
+            fam = [pb] + ct.closures_of(pb)
+            raw = [(x, ln, what) for x in fam for ln, what in raw_float_ops(x)]
+            fcalls = [t["call"]["def"] for x in fam for _, t in x.calls() if t["call"]["def"] == "core::cmp::PartialOrd::partial_cmp" and t["call"].get("substs")
+                      and any(n_.get("prim") in ("f64", "f32") for n_ in walk_ty(t["call"]["substs"][0]))]
+            ctx.check(not raw and not fcalls, "R14.6", pb.loc(), f"{path}|partial_cmp", f"{path}: PartialOrd compares a double-bearing field with the float's own partial_cmp ({(raw[0][2] if raw else (fcalls[0] if fcalls else ''))}): for NaN `partial_cmp` / `<` / `>` disagree with `cmp` and `==`",
+                      instance=f"{path.split('::', 1)[1]}: partial_cmp does not use the float's partial order")
     ctx.floor("R14.6", "generated types with double-bearing fields", ntypes, 12)
